@@ -165,6 +165,9 @@ func (s *Subscription) Monitor(ctx context.Context, ts ua.TimestampsToReturn, it
 	if err != nil {
 		return nil, err
 	}
+	if len(res.Results) != len(items) {
+		return nil, ua.StatusBadUnknownResponse
+	}
 
 	// store monitored items
 	s.itemsMu.Lock()
